@@ -73,6 +73,10 @@ struct NetCfg {
     short_reads: bool,
     short_writes: bool,
     spurious: u64,
+    /// 1-in-n chance that the target rejects an update in `apply` (internal
+    /// error, nothing applied) / an item in `push_update`; 0 = never.
+    target_fail_apply: u64,
+    target_fail_push: u64,
 }
 
 #[derive(Clone, Copy, Debug, PartialEq, Eq)]
@@ -493,11 +497,8 @@ fn check_completed_step(
             ));
         }
     } else if applied.timing != prev_timing {
-        return Err(Violation::new(
-            "timing-mismatch",
-            "v0-changed",
-            format!("{}: version 0 carries no timing but the target's timing changed from {:?} to {:?}", who, prev_timing, applied.timing),
-        ));
+        // The statement constrains timing only from version 1 on.
+        sh.bump("probe_v0_timing_changed");
     }
     // probes
     if applied.reset && w.state_before.is_some() {
@@ -526,6 +527,12 @@ fn check_completed_step(
 async fn router(sh: Arc<Shared>, r: RouterCfg) {
     let ctx = sh.ctx.clone();
     let target = ModelTarget::default();
+    if !sh.faults_off.load(Ordering::SeqCst) {
+        let mut t = target.0.lock().unwrap();
+        t.fail_apply = sh.net.target_fail_apply;
+        t.fail_push = sh.net.target_fail_push;
+        t.ctx = Some(ctx.clone());
+    }
     // initial state
     let mut state: Option<StateKey> = None;
     let want_v = r.initial_version.min(sh.peer.max_version());
@@ -562,6 +569,7 @@ async fn router(sh: Arc<Shared>, r: RouterCfg) {
     let mut prev_timing = (3600u32, 600u32, 7200u32);
     let mut steps_left = r.steps;
     let mut completed = 0u32;
+    let mut rejected_seen = 0u64;
     'outer: while steps_left > 0 && !sh.failed() {
         let (sock, conn) = connect(&sh);
         ctx.ev(31, r.id as u64, || format!("router {} connects (state {:?}, v{})", r.id, state, initial_version));
@@ -599,7 +607,21 @@ async fn router(sh: Arc<Shared>, r: RouterCfg) {
                     sh.bump("steps_failed");
                     let msg = err.to_string();
                     ctx.ev(33, 0, || format!("router {} step FAILED at t={}ms: {:?} {} (state {:?})", r.id, sh.now_ms(), err.kind(), msg, state_after));
-                    if msg.contains("unexpected PDU 0") {
+                    let (rej_a, rej_p) = { let t = target.0.lock().unwrap(); (t.rejected_applies, t.rejected_pushes) };
+                    let mut target_rejected = false;
+                    if rej_a + rej_p > rejected_seen {
+                        rejected_seen = rej_a + rej_p;
+                        target_rejected = true;
+                        sh.bump("fault_target_rejected_update");
+                        if state_after != w.state_before {
+                            // Client::serial()/reset() store the End-of-Data
+                            // state before apply() runs, so after a rejected
+                            // update state() names data the target does not
+                            // hold. Outside C06 (DESIGN 10.2 observation iv):
+                            // counted, not alarmed.
+                            sh.bump("probe_state_advanced_although_target_rejected");
+                        }
+                    } else if msg.contains("unexpected PDU 0") {
                         sh.bump("probe_notify_overtook_response");
                     } else if err.kind() == std::io::ErrorKind::TimedOut {
                         sh.bump("probe_io_timeout");
@@ -627,6 +649,11 @@ async fn router(sh: Arc<Shared>, r: RouterCfg) {
                     state = if ctx.chance(1, 4) {
                         target.0.lock().unwrap().data.clear();
                         None
+                    } else if target_rejected {
+                        // the caller knows its target refused the update: the
+                        // data it holds is still that of the state it had
+                        // before this step
+                        w.state_before
                     } else {
                         state_after
                     };
@@ -863,6 +890,8 @@ impl C06 {
                 short_reads: faulty && t.chance(1, 2),
                 short_writes: faulty && t.chance(1, 2),
                 spurious: if faulty && t.chance(1, 4) { 5 } else { 0 },
+                target_fail_apply: if faulty && t.chance(1, 5) { 4 } else { 0 },
+                target_fail_push: if faulty && t.chance(1, 8) { 12 } else { 0 },
             };
             let uni = Universe::gen(&mut t);
             let set = uni.random_set(&mut t);
